@@ -19,6 +19,7 @@ mod cssws_unit;
 mod bmc_unit;
 mod groupdet_unit;
 mod grouplink_unit;
+mod jseval_unit;
 mod posloc_unit;
 mod strfyrt_unit;
 
@@ -87,6 +88,8 @@ fn main() {
         ("POSLOC", "run") => posloc_unit::run(&input.unwrap()),
         ("STRFYRT", "search") => strfyrt_unit::search(),
         ("STRFYRT", "run") => strfyrt_unit::run(&input.unwrap()),
+        ("JSEVAL", "search") => jseval_unit::search(),
+        ("JSEVAL", "run") => jseval_unit::run(&input.unwrap()),
         ("TOTAL", "search") => total_unit::search(),
         ("TOTAL", "run") => total_unit::run(&input.unwrap()),
         _ => {
